@@ -84,7 +84,7 @@ def run_case(case, ctx):
         xu = np.asarray(R.isf(fam, 1 - QS[QS > 0.5], **p), float)
         xq[QS > 0.5] = xu
     xq = xq[np.isfinite(xq)]
-    lo = {"weibull": p.get("gamma", 0.0), "gamma": p.get("loc", 0.0), "rayleigh": p.get("loc", 0.0)}.get(fam, 0.0)
+    lo = {"weibull": p.get("gamma", 0.0), "gamma": p.get("loc", 0.0), "rayleigh": p.get("loc", 0.0), "sc_gengamma": p.get("loc", 0.0)}.get(fam, 0.0)
     sc = float(np.nanmedian(np.abs(np.diff(xq)))) if xq.size > 3 else 1.0
     extra = [lo, 0.0, lo - 1.0, -1.0, lo - 1e-9, lo + 1e-12 * max(1.0, abs(lo))]
     if R.SUPPORT[fam] == "real":
